@@ -174,9 +174,15 @@ impl SingleSubLowerer<'_, '_> {
                 .unwrap_or(sp!((0.0).into()))
         };
 
-        // EoSD args must be const
-        let lowered_int = self.classify_expr(&int)?.expect_simple().lowered.clone();
-        let lowered_float = self.classify_expr(&float)?.expect_simple().lowered.clone();
+        // EoSD args are embedded in the call instruction, so each must be a constant or a single register
+        let lowered_int = match self.classify_expr(&int)? {
+            ExprClass::Simple(e) => e.lowered.clone(),
+            _ => return Err(self.unsupported(int.span, "complex expression as a sub argument in this game")),
+        };
+        let lowered_float = match self.classify_expr(&float)? {
+            ExprClass::Simple(e) => e.lowered.clone(),
+            _ => return Err(self.unsupported(float.span, "complex expression as a sub argument in this game")),
+        };
         let lowered_sub_id = sp!(call.name.span => LowerArg::Raw(sub.index.into()));
 
         self.lower_intrinsic(
